@@ -577,6 +577,11 @@ func c09CorpusCases() []c09Corpus {
 		{"fixed2.delete_A_C_of_A_B_C", cat([]c09Op{cAdd(1, 3600, 1, 2, 3), cSet(1, 0, 1, 3), cAddrs(1), cGC()}, obsAll(1))},
 		{"fixed2.delete_all_but_one_of_five", cat([]c09Op{cAdd(1, 3600, 1, 2, 3, 4, 5), cSet(1, -1, 5, 4, 2, 1), cAddrs(1), cSet(1, 0, 3, 3), cAddrs(1), cGC()}, obsAll(1))},
 		{"fixed2.consume_supersedes_several", cat([]c09Op{cCon(1, 1, 3600, 1, 2, 3, 4), cCon(1, 2, 3600, 2), cAddrs(1), cGC()}, obsAll(1))},
+		// deleteInPlace moves the tail entry into the freed slot: the record must be sorted again before
+		// it is stored (clean / GC look at the first entry only).  Deleting the entry with the nearest
+		// expiry puts the one with the farthest expiry in front of one that expires sooner.
+		{"ok.delete_head_then_entry_behind_expires", cat([]c09Op{cAdd(1, 10, 1), cAdd(1, 120, 2), cAdd(1, 900, 3), cSet(1, 0, 1), cAdv(119)}, obsAll(1), []c09Op{cAdv(1)}, obsAll(1), []c09Op{cGC(), cReopen()}, obsAll(1), []c09Op{cAdv(780), cGC()}, obsAll(1))},
+		{"ok.delete_head_of_five_then_reopen_gc", cat([]c09Op{cAdd(1, 10, 1), cAdd(1, 120, 2), cAdd(1, 900, 3), cAdd(1, 1800, 4), cAdd(1, 3600, 5), cSet(1, -1, 1, 3), cReopen(), cAdv(120), cGC()}, obsAll(1), []c09Op{cAdv(1680), cGC()}, obsAll(1))},
 		// item 5 and relatives (repaired by 39ac082, c312de3, 6eab440): the 13 recorded finding
 		// histories, one or more per former known-finding key; all must pass now
 		{"fixed5.mem_stale_seq.lower_seq_after_expiry_before_gc", cat([]c09Op{cCon(1, 5, 120, 1), cAdv(180), cCon(1, 3, 3600, 2)}, obsAll(1))},
